@@ -7,6 +7,7 @@ package main
 // application had set.
 
 import (
+	gocontext "context"
 	"encoding/json"
 	"fmt"
 	"net"
@@ -17,6 +18,8 @@ import (
 	"time"
 
 	"github.com/brutella/hc/accessory"
+
+	"github.com/brutella/hc/hap"
 
 	"hcverif/ref"
 )
@@ -225,6 +228,19 @@ func (w *rsWorld) runWord(b Beh, seed int64) ([]J, error) {
 				w.lamp.Lightbulb.On.SetValue(!w.lamp.Lightbulb.On.GetValue())
 			}()
 			time.Sleep(2 * time.Millisecond)
+			lines = append(lines, o)
+			continue
+		}
+		if s.A == "KeepAlive" {
+			// the accessory's keep-alive goes to every connection, for a few periods
+			apps.Add(1)
+			go func() {
+				defer apps.Done()
+				ctx, cancel := gocontext.WithTimeout(gocontext.Background(), 4*time.Millisecond)
+				defer cancel()
+				hap.NewKeepAlive(time.Millisecond, w.tr.Ctx).Start(ctx)
+			}()
+			time.Sleep(5 * time.Millisecond)
 			lines = append(lines, o)
 			continue
 		}
